@@ -24,6 +24,7 @@ func runC04(c *an.Ctx) {
 	r04a(c)
 	r04b(c)
 	r04c(c)
+	r04cAtomic(c)
 	r04d(c)
 	r04e(c)
 }
@@ -166,6 +167,10 @@ func notLockedDirect(v ssa.Value) bool {
 func r04c(c *an.Ctx) {
 	c.Rule("R04c", "every Mesos KILL is behind a not-owned filter (or is the allow-listed emergency shutdown)", 3)
 	sites := c.SitesOf(func(n string) bool { return strings.HasSuffix(n, "scheduler/calls.Kill") })
+	reconName := "-"
+	if rf, _ := reconcileKill(c); rf != nil {
+		reconName = c.RelName(an.OutermostParent(rf))
+	}
 	for _, s := range sites {
 		if !strings.HasPrefix(c.RelName(s.Fn), "(*core/") && !strings.HasPrefix(c.RelName(s.Fn), "core/") {
 			continue
@@ -188,10 +193,10 @@ func r04c(c *an.Ctx) {
 			}
 			sort.Strings(names)
 			c.Ob("kill|"+name, s.Call.Pos(), okCallers, "allow-listed: emergency kill at process shutdown; callers must be the signal handler only (callers: %v)", names)
-		case "(*core/task.Manager).handleMessage":
+		case reconName:
 			cut, tests := ownedOnlyCut(s.Fn)
 			reach := an.ReachableCut(s.Fn, s.Call, cut)
-			c.Ob("kill|"+name, s.Call.Pos(), !reach && tests > 0, "the reconciliation KILL must be unreachable for a task that is in the roster and owned (shared with C18 R18d)")
+			c.Ob("kill|reconciliation", s.Call.Pos(), !reach && tests > 0, "the reconciliation KILL must be unreachable for a task that is in the roster and owned (shared with C18 R18d)")
 		case "(*core/task.schedulerState).killTask":
 			// chain: killTask <- doKillTask <- doKillTasks <- {Cleanup, KillTasks}, each feeding a roster.filtered(f) list with f true only if !IsLocked
 			ok := true
@@ -256,6 +261,39 @@ func r04c(c *an.Ctx) {
 			c.Ob("kill|"+name, s.Call.Pos(), false, "a Mesos KILL call in %s is not covered by any known ownership filter", name)
 		}
 	}
+}
+
+// r04cAtomic: in KillTasks the not-owned filter and the kill are one critical section.
+func r04cAtomic(c *an.Ctx) {
+	c.Rule("R04f", "KillTasks: the not-owned filter is evaluated inside the killTasksMu critical section that performs the kill (check-then-act)", 1)
+	fn := c.MustFn("core/task", "Manager.KillTasks")
+	if fn == nil {
+		return
+	}
+	c.Subject()
+	kills := an.CallsNamed(fn, "(*core/task.Manager).doKillTasks")
+	if len(kills) != 1 {
+		c.Ob("(*core/task.Manager).KillTasks|filter-and-kill-atomic", fn.Pos(), false, "expected exactly one doKillTasks call, found %d", len(kills))
+		return
+	}
+	var filt ssa.Instruction
+	for _, l := range an.BackSlice(kills[0].Common().Args[1], an.SliceOpts{LeafCall: func(n string, _ *ssa.Call) bool { return n == "(*core/task.roster).filtered" }}) {
+		if l.Kind == "call" {
+			filt = l.Val.(*ssa.Call)
+		}
+	}
+	ok := false
+	if filt != nil {
+		for _, a := range an.HeldAt(filt) {
+			for _, b := range an.HeldAt(kills[0]) {
+				if a.Mode == "x" && b.Mode == "x" && a.At == b.At && strings.HasSuffix(a.Path, "Manager.killTasksMu") {
+					ok = true
+				}
+			}
+		}
+	}
+	c.Ob("(*core/task.Manager).KillTasks|filter-and-kill-atomic", kills[0].Pos(), ok,
+		"the list of tasks to kill is filtered by ownership outside the critical section in which they are killed: while this call waits for killTasksMu another environment can claim one of the tasks, and the stale list kills a task that is now owned")
 }
 
 func r04d(c *an.Ctx) {
